@@ -279,9 +279,10 @@ class UnionSchemaGen:
 class UDataGen(gen.DataGen):
     """mode: 'none' | 'tuple' | 'type' | 'mixed' | 'named' (tuple hints on named branches only: the closure clause)"""
 
-    def __init__(self, rng, named, mode="mixed", ambiguous=0.35, **kw):
+    def __init__(self, rng, named, mode="mixed", ambiguous=0.35, dt=False, **kw):
         super().__init__(rng, named, hints=False, **kw)
         self.mode, self.ambiguous = mode, ambiguous
+        self.dt = dt          # disable_tuple_notation: tuples at union positions are plain sequences, also hint-shaped ones
         self.hints_made = 0
 
     def record_like(self, s):
@@ -324,6 +325,12 @@ class UDataGen(gen.DataGen):
             v = self.datum(b, depth + 1)
             rb = self.resolve(b)
             named_branch = (isinstance(rb, dict) and rb["type"] in NAMED)
+            if self.dt:
+                q = rng.random()
+                if isinstance(v, list) and q < 0.5:
+                    return tuple(v)                           # a sequence given as a tuple: conforms to the array branch
+                if q < 0.12:
+                    return (branch_label(b), v)               # hint-shaped: with tuple notation disabled just a 2-tuple
             r = rng.random()
             mode = self.mode
             if mode == "mixed":
@@ -820,7 +827,7 @@ def make_cases(ctx, n, mode_weights=None, disable_share=0.25, family_filter=None
             if dt and mode in ("tuple", "named", "mixed"):
                 mode = rng.choice(["none", "type"])
             try:
-                c.datum = UDataGen(rng, named, mode=mode).datum(parsed)
+                c.datum = UDataGen(rng, named, mode=mode, dt=dt).datum(parsed)
             except (gen.TooDeep, RecursionError):
                 deep += 1
                 continue
